@@ -234,36 +234,46 @@ pub(crate) mod verif_proofs {
         std::mem::forget(s);
     }
 
-    /// [C12.parts] a state is accepted only if the distributions of its action and of BOTH counters
-    /// are valid (state without transitions, so the transition loop is trivial)
-    #[kani::proof]
-    #[kani::unwind(16)]
-    #[kani::stub(alloc::fmt::format, stub_format)]
-    pub(crate) fn k_valid_state_parts() {
-        use crate::dist::verif_proofs::{any_supported_dist, dist_params_valid};
-        let mut s = mk_state(None, 0, None);
-        let da = any_supported_dist();
-        let db = any_supported_dist();
-        let dc = any_supported_dist();
-        let op = crate::counter::Operation::Increment;
-        let has_action: bool = kani::any();
-        let has_a: bool = kani::any();
-        let has_b: bool = kani::any();
-        if has_action {
-            s.action = Some(Action::UpdateTimer { replace: kani::any(), duration: dc, limit: None });
-        }
-        s.counter = (
-            if has_a { Some(Counter { operation: op, dist: Some(da), copy: kani::any() }) } else { None },
-            if has_b { Some(Counter { operation: op, dist: Some(db), copy: kani::any() }) } else { None },
-        );
-        let r = s.validate(1);
-        if r.is_ok() {
-            assert!(!has_action || dist_params_valid(&dc), "[C12.parts] action distribution");
-            assert!(!has_a || dist_params_valid(&da), "[C12.parts] counter A distribution");
-            assert!(!has_b || dist_params_valid(&db), "[C12.parts] counter B distribution");
-        }
-        kani::cover!(r.is_ok() && has_a && has_b, "accepted with both counters");
-        std::mem::forget(r);
-        std::mem::forget(s);
+    /// [C12.parts] a state is accepted only if the distributions of its action and of BOTH counters are
+    /// valid.  The state has no transitions (the transition loop is trivial); one harness per shape of
+    /// the counter pair, the symbolic distribution is a Uniform with arbitrary parameters and the
+    /// other parts are constant and valid, so that no combination of parts is skipped.
+    fn const_valid() -> crate::dist::Dist {
+        crate::dist::Dist::new(crate::dist::DistType::Uniform { low: 1.0, high: 1.0 }, 0.0, 0.0)
     }
+
+    macro_rules! k_valid_state_parts {
+        ($name:ident, $a:expr, $b:expr, $act:expr) => {
+            #[kani::proof]
+            #[kani::unwind(16)]
+            #[kani::stub(alloc::fmt::format, stub_format)]
+            pub(crate) fn $name() {
+                use crate::dist::verif_proofs::{any_dist_of, dist_params_valid};
+                let d = any_dist_of(0);
+                let pick = |which: u8| -> Option<crate::dist::Dist> {
+                    match which { 0 => None, 1 => Some(const_valid()), _ => Some(d) }
+                };
+                let op = crate::counter::Operation::Increment;
+                let mut s = mk_state(None, 0, None);
+                s.counter = (
+                    pick($a).map(|x| Counter { operation: op, dist: Some(x), copy: false }),
+                    pick($b).map(|x| Counter { operation: op, dist: Some(x), copy: false }),
+                );
+                s.action = pick($act).map(|x| Action::UpdateTimer { replace: false, duration: x, limit: None });
+                let r = s.validate(1);
+                if r.is_ok() {
+                    assert!(dist_params_valid(&d), "[C12.parts][C01.valid] an invalid distribution was accepted");
+                }
+                kani::cover!(r.is_ok(), "accepted");
+                std::mem::forget(r);
+                std::mem::forget(s);
+            }
+        };
+    }
+    // (counter A, counter B, action): 0 = absent, 1 = constant valid, 2 = the symbolic one
+    k_valid_state_parts!(k_valid_state_a_only, 2, 0, 0);
+    k_valid_state_parts!(k_valid_state_b_only, 0, 2, 0);
+    k_valid_state_parts!(k_valid_state_a_with_b, 2, 1, 1);
+    k_valid_state_parts!(k_valid_state_b_with_a, 1, 2, 1);
+    k_valid_state_parts!(k_valid_state_action, 1, 1, 2);
 }
